@@ -16,14 +16,13 @@ RULE = ("VERIF_N = n: 3n synthetic cat-file response streams (0-5 responses: pre
         "copied to a sibling / vendored / below itself, copies of copies, fixture directories with a subdirectory at 2-3 places: same names, "
         "modes and blobs => the same tree object; in the base tree, hence on all branches, or on one branch only, and broken again on a branch "
         "by the per-branch changes — measured from `git ls-tree -t`: class same-tree-at-several-paths / nested-duplicate); 10%: entry names "
-        "git accepts and go-git's walker refuses (control characters, '\\..'); executable, symlink and gitlink entries; empty, "
+        "with control characters / backslashes (legal in git, refused by go-git's TreeWalker); executable, symlink and gitlink entries; empty, "
         "1-2 byte, binary, around-SizeMax and LargeFiles-exempt blobs; per-branch .sourcegraph/ignore, sometimes as a symlink) indexed with "
         "ZOEKT_DISABLE_CATFILE_BATCH=true and =false; plus ONE branch with 1025 nested directories under a watchdog. non-trivial = >= 2 responses and >= 4 ops / >= 3 allocations / >= 2 branches and >= 3 blob entries.")
 
 TRUSTED = [
     "correspondence harness harness/overlay/gitindex/zz_verif_c14_test.go (generators, canonicalisation, Go oracles incl. the git CLI: ls-tree, cat-file)",
-    "go-git's object store (GetTree/blob access: a branch enters the model as its root tree, a forest of (name, mode, object id, subtree) built from `git ls-tree -r -t`; the TreeWalker state machine itself is modelled: tw_step) and the `git cat-file --batch` output format",
-    "pathutil.ValidTreePath is modelled for control characters, '.', '..', '.git', 'git~1' (ASCII case folding); its HFS/NTFS-ignorable-character variants and Unicode case folding are not (git refuses to create such entries)",
+    "go-git's object store (object.GetTree / blob access: a branch enters the model as its root tree, a forest of (name, mode, object id, subtree) built from `git ls-tree -r -t`; the walk RepoWalker.walkTree itself is modelled: walk_forest) and the `git cat-file --batch` output format",
     "bufio.Reader: modelled as the unread remainder of the stream plus a per-call hand-over amount >= 1",
     "the glob engines (ignore file: gobwas/glob as a verdict function glob(pattern, path), instantiated with the real engine's verdicts; LargeFiles: doublestar via Options.IgnoreSizeMax's verdicts); the ignore file's line syntax and its lookup in the tree ARE modelled (Model/IgnoreFile.v, tree_ignore_content)",
     "index.Builder / shard writer / searcher round trip; Builder.Add's skip rewriting is modelled except the too-many-trigrams rule",
@@ -102,4 +101,5 @@ def run(ctx):
     return vf.finish(ctx, "proof", proofs, cov, failures=failures, broken=broken,
                      assumptions=["well-formed cat-file response streams for the delivery theorems (the reader's behaviour on malformed streams is only covered by the correspondence)",
                                   "every requested blob is present in the object store for the agreement of the two reading paths",
-                                  "Options.Submodules = false; normal (non-delta) builds"])
+                                  "Options.Submodules = false; normal (non-delta) builds",
+                                  "at most 1024 nested directories per branch tree (deeper trees are refused by CollectFiles with an error: walk_forest = Err 1)"])
